@@ -4,7 +4,11 @@ C11: the property as a decidable predicate on OBSERVATIONS of one command execut
 
 The observation is a pair of runs of the same packet in identical worlds: as sent, and with the claimed
 identity fields (`SenderId`, `ReceiverId`, `Token`) blanked.  `holds` says:
-* the two runs are indistinguishable (claimed fields have no effect);
+* the two runs are indistinguishable (claimed fields have no effect) — including, field by field, every payload
+  delivered to a connection and every stored record (`holdsObs`: equal digests); the claimed fields are
+  `SenderId`/`ReceiverId`/`Token`, the body's `target_client_id` unless the command is addressed, and every
+  identity-like JSON key any struct of the server could decode, added to the body with a foreign value;
+* the sender a recipient is told (`Dlv.sender`) is the connection's authenticated client, or absent;
 * every pre-existing object disclosed to the sender, every changed object and every created object has
   the connection's authenticated client as a party (a connection code may also be changed by whoever
   presents it for activation — knowing the code is the authorisation);
@@ -60,5 +64,17 @@ def holdsRun (w : World) (f : Nat) (c : Cmd) (needsAuth : Bool) (r : Run) : Bool
 /-- the property on an observation: `a` = run of the packet as sent, `b` = run with blanked claimed fields -/
 def holds (w : World) (f : Nat) (c : Cmd) (a b : Run) : Bool :=
   decide (a = b) && holdsRun w f c (guarded c.ctype c.resp) a
+
+/-- What the harness observes beyond the two runs: digests of every delivered payload (all fields, volatile ones
+removed) and of every stored record that was created or changed, for each run.  The model does not predict
+payload contents; the predicate requires that they are the same with and without the claimed fields. -/
+structure Obs where
+  a : Run
+  b : Run
+  digA : List String := []
+  digB : List String := []
+
+def holdsObs (w : World) (f : Nat) (c : Cmd) (o : Obs) : Bool :=
+  holds w f c o.a o.b && decide (o.digA = o.digB)
 
 end Tunnox.C11
